@@ -26,6 +26,8 @@
 package main
 
 import (
+	sqlparse "github.com/alicebob/sqlittle/sql"
+	"encoding/hex"
 	"bufio"
 	"context"
 	"database/sql"
@@ -143,6 +145,13 @@ func nativeOp(g *gor, db **sqlittle.DB, w []string) string {
 		var cs []string
 		cs, err = (*db).Columns(w[1])
 		d.add(strings.Join(cs, ","))
+	case "parse":
+		// sql.Parse on a statement given as hex: the same text parses to the same statement (or the same error) whatever
+		// other goroutines parse at the same time and whatever was parsed before
+		b, _ := hex.DecodeString(w[1])
+		st, perr := sqlparse.Parse(string(b))
+		d.add(fmt.Sprintf("%#v", st))
+		err = perr
 	case "reopen", "reopen2":
 		(*db).Close()
 		if w[0] == "reopen2" {
